@@ -15,6 +15,7 @@ open Lean Pywbem.Proto Pywbem.Model Pywbem.Model.XmlText Pywbem.Model.CimJson
   {"op":"export","arg":arg,"codec":tables}
         -> {"ok":{"headers":[[k,v],…],"xml":cps,"valid":b,"why":…,"agree":b}} | {"exc":name}
   {"op":"lrsp","kind":"ok"|"err","msgid":cps,"method":cps,"code":n,"desc":cps} -> {"xml":cps,"valid":b,"why":…}
+  {"op":"val","val":value,"codec":tables}                     -> {"ok":{"xml":cps,"valid":b,"why":…}} | {"exc":name}   (tocimxml(value))
   {"op":"par","text":cps}                                     -> {"tree":xml|null,"valid":b,"why":…}   (XmlParse.par on a document text)
   {"op":"match","elem":cps,"kids":[cps,…]}                   -> {"match":b|null}   (content model of a declared element) -/
 
@@ -99,7 +100,8 @@ def handle (j : Json) : Json :=
     | none => Json.mkObj [("bad", "obj")]
     | some o =>
       let t := encObj C o
-      Json.mkObj ([("xml", cpsToJson t.ser), ("sendable", Sendable.sendableObj C o)] ++ validJ t)
+      Json.mkObj ([("xml", cpsToJson t.ser), ("sendable", Sendable.sendableObj C o), ("shape", Sendable.shapeObj o),
+        ("content", Sendable.contentOkObj C o)] ++ validJ t)
   | some "encpv" =>
     let p := paramOfJson (getField j "obj")
     let t := encParamValue C p
@@ -123,6 +125,10 @@ def handle (j : Json) : Json :=
       | some "ok" => listenerSuccess msgid m
       | _ => listenerError msgid m ((getNat j "code").getD 0) ((getChars j "desc").getD [])
     Json.mkObj ([("xml", cpsToJson t.ser)] ++ validJ t)
+  | some "val" =>
+    match tocimxmlValue C (valOfJson (getField j "val")) with
+    | .ok x => Json.mkObj [("ok", Json.mkObj ([("xml", cpsToJson x.ser)] ++ validJ x))]
+    | .error e => e.toJson
   | some "par" =>
     -- the proved parser on a real document text: the tree the receiver sees, and the validator's verdict on it
     match Pywbem.Model.XmlParse.par ((getChars j "text").getD []) with
